@@ -569,6 +569,19 @@ def roles_of(repo=None):
     for r in ROLE_NAMES:
         res.setdefault(r, (r, False))
     _ROLES[key] = res
+    try:        # the native replayer resolves the same roles (it cannot import this pack)
+        import hashlib
+        import json
+        import os
+        out_dir = os.path.join(os.path.dirname(os.path.dirname(os.path.abspath(__file__))), "out")
+        os.makedirs(out_dir, exist_ok=True)
+        path = os.path.join(out_dir, "c20_roles_%s.json" % hashlib.sha1(os.path.realpath(key).encode()).hexdigest()[:12])
+        tmp = f"{path}.{os.getpid()}.tmp"
+        with open(tmp, "w") as fh:
+            json.dump({r: q for r, (q, _g) in res.items()}, fh)
+        os.replace(tmp, path)
+    except Exception:  # noqa
+        pass
     return res
 
 
@@ -1404,9 +1417,36 @@ def chunks_iteration(repo, tier):
         k = lc.i - 1                                   # the iteration just finished
         return z3.And(yn == 16, z3.And([z3.Select(ya, t) == z3.Select(a, 16 * k + t) for t in range(16)]))
 
-    c = FnContract(target=f"{AES}::_chunks", generator=True, params=[("data", DATA), ("size", p_const(16))],
-                   requires=lambda c: c.args["data"].length % 16 == 0, raises=[],
-                   loops={0: LoopSpec(inv=inv, label="chunk-k-is-bytes-16k..16k+15")})
+    import ast as _ast
+    fnode = loader.module(AES, repo).functions["_chunks"]
+    is_gen = any(isinstance(x, (_ast.Yield, _ast.YieldFrom)) for x in _ast.walk(fnode))
+
+    def seq_post(c):
+        """the function RETURNS the sequence (generator expression / list): len/16 elements, element k = bytes 16k..16k+15"""
+        n, a = M.arr_of(c.args["data"])
+        r = c.result
+        if not isinstance(r, VSeq):
+            items = c.ex.concrete_items(c.st, r)
+            raise ops.Unsupported("result of _chunks is not a sequence of symbolic length" if items is None else "concrete result for a symbolic buffer")
+        k = z3.Int(fresh_name("k!chunk"))
+        e = r.elem(k)
+        if isinstance(e, VBytes):
+            en, sel = z3.IntVal(len(e.items)), [M.byte_t(x) for x in e.items]
+        else:
+            en, ea = M.arr_of(e)
+            sel = [z3.Select(ea, t) for t in range(16)]
+        return z3.And(r.length == n / 16,
+                      z3.ForAll([k], z3.Implies(z3.And(k >= 0, k < n / 16), z3.And([en == 16] + [sel[t] == z3.Select(a, 16 * k + t) for t in range(min(16, len(sel)))]))))
+
+    if is_gen:
+        c = FnContract(target=f"{AES}::_chunks", generator=True, params=sig_params("_chunks", {"data": DATA, "size": p_const(16)}),
+                       requires=lambda c: c.args["data"].length % 16 == 0, raises=[],
+                       loops={0: LoopSpec(inv=inv, label="chunk-k-is-bytes-16k..16k+15")})
+    else:
+        c = FnContract(target=f"{AES}::_chunks", params=sig_params("_chunks", {"data": DATA, "size": p_const(16)}),
+                       requires=lambda c: c.args["data"].length % 16 == 0, raises=[],
+                       ensures=[("chunk-k-is-bytes-16k..16k+15", seq_post)])
+    c = bind_by_position(c)
     if "_chunks" not in loader.module(AES, repo).functions:
         return {"obligations": []}          # the drivers slice the buffer themselves
     rep = verify.run_contract("C20", c, reg, Universe(repo), repo=repo, executor_cls=M.C20Executor)
@@ -1414,7 +1454,7 @@ def chunks_iteration(repo, tier):
     if rep.error or rep.out_of_subset:
         return {"obligations": [{"id": f"{pre}/out-of-subset", "kind": "out-of-subset", "status": "unknown", "vcs": 0, "seconds": 0.0, "backends": {},
                                  "witness": None, "reason": "OUT-OF-SUBSET " + str(rep.error or rep.out_of_subset), "function": f"{AES}::_chunks", "loc": "", "volatile": True}]}
-    keep = [o for o in rep.obligations if "inv-" in o["id"] or o["id"].endswith("/raises")]
+    keep = [o for o in rep.obligations if "inv-" in o["id"] or "/ensures#" in o["id"] or o["id"].endswith("/raises")]
     for o in keep:
         o["function"] = f"{AES}::_chunks"
         o["volatile"] = True
